@@ -150,6 +150,17 @@ class BuiltinsMixin:
             raise
 
     def bi_hasattr(self, obj, name):
+        o = self.resolve(obj)
+        if o is None or isinstance(o, (int, float, str, bytes, tuple)):
+            return hasattr(o, name)
+        if isinstance(o, (SInt, SBool)):
+            return hasattr(0, name)
+        if isinstance(o, SStr):
+            return hasattr("" if o.kind == "str" else b"", name)
+        if isinstance(o, SDict):
+            return hasattr({}, name)
+        if isinstance(o, SList):
+            return hasattr([], name)
         try:
             self.getattr_value(obj, name)
             return True
@@ -1070,6 +1081,8 @@ class BuiltinsMixin:
         return d.items.get(key, default)
 
     def m_dict_pop(self, d, key, *default):
+        if getattr(d, "owner", None) is not None:
+            self.note_write(d.owner, key)
         if key in d.items:
             return d.items.pop(key)
         if default:
